@@ -62,7 +62,7 @@ def run(ctx):
         ctx.add_sample({"tracker": name, "cfg": beh[0]["cfg"], "first_ops": beh[0]["ops"][:5]})
     # the edge covers of the storage models include cleaning at d-1 / d / d+1 in both representations
     beh, g = gen_edge_cover(ctx, "UdpSwarm_Gen", "UdpSwarm_Gen.cfg", U.arg_filter, U.to_exec_op,
-                            {"max_resp": 2, "mode": "off", "dumps": True},
+                            {"max_resp": 2, "mode": "off", "dumps": True, "peer_clients": False},
                             max_ops=20000 if ctx.quick() else None)
     tp = execute(ctx, "udp_exec", beh, "udp_edge")
     validate_and_report(ctx, "UdpRef_Trace", "UdpRef_Trace.cfg", tp, "udp_edge", U.classify, beh)
